@@ -32,7 +32,7 @@ package fasthttp
 // normalizePath: the result starts with '/', has no empty segment and no "." or ".." segment anywhere,
 // including at the end (the postconditions are the property statement; the loop invariants are the proof).
 //@ func normalizePath results r
-//@   property C26 C23
+//@   property C26 C23 C27
 //@   modifies dst
 //@   frame assumed
 //@   ensures[storage]          reuses(r, dst)
